@@ -617,7 +617,7 @@ func (st *State) evalValue(fr *Frame, instr ssa.Value) Value {
 	case *ssa.Slice:
 		return st.sliceOp(fr, in)
 	case *ssa.Range:
-		x := st.get(fr, in.X)
+		x := st.demux(st.get(fr, in.X))
 		switch v := x.(type) {
 		case Str:
 			return &RangeIter{Str: &v}
